@@ -41,6 +41,51 @@ def run(ck, F, tier):
     if len(rows) != 1:
         ck.violation('M', 'M : yuv420_to_rgba : row loop', where_of(b), 'no unique row loop 0..len(y)/y_width'); return
     r = ('ix', rows[0].L); W = ('v', 'y_width')
+    # L: every row is converted by the code below: no `continue` / `break` / early return inside the row loop - one back edge (from the end of the body),
+    # the only exit is the exhausted row range, and the output is written by nothing but the kernel (through the row slices) and the remainder copy
+    ck.rule('L', 'row loop discipline: each iteration runs the whole body (a single back edge; the loop is left only when the row range is exhausted), and the output buffer is '
+                 'handed to no call other than the ones that slice it for the kernel and the remainder copy')
+    loops_ = g.loops()
+    outer = max(loops_.items(), key=lambda kv: len(kv[1])) if loops_ else None
+    if outer is None or not all(bb in outer[1] for bb, _ in calls):
+        ck.violation('L', 'L : yuv420_to_rgba : row loop', where_of(b), 'no loop containing both kernel call sites')
+    else:
+        h_, body_ = outer
+        back = sorted(x for x in body_ if h_ in g.succ[x])
+        exits = sorted(x for x in body_ if any(y not in body_ for y in g.succ[x]))
+        rets_in = [x for x in body_ if g.blocks[x]['term']['t'] == 'return']
+        # callees that receive the output vector / a view of it
+        outv = [int(l) for l, nm in T.names.items() if nm == 'rgba']
+        allowed = ('deref_mut', 'index_mut', 'chunks_exact_mut', 'cast_slice_mut', 'iter_mut', 'as_mut_slice', 'into_iter', 'as_mut')
+        odd = []
+        for bb, t in g.calls():
+            cn = F.callee_name(t).split('#')[0]
+            for a in t['args']:
+                try: o = T.D.origin(a)
+                except Exception: continue
+                def roots(o_, depth=0):
+                    if depth > 8 or not isinstance(o_, tuple) or not o_: return set()
+                    if o_[0] == 'multi': return {o_[1]}
+                    if o_[0] == 'ref' and len(o_) > 1: return roots(o_[1], depth + 1)
+                    if o_[0] == 'rv' and o_[2]['rv']['r'] == 'ref': return {o_[2]['rv']['p']['l']}
+                    return set()
+                if roots(o) & set(outv) and not cn.endswith(allowed) and not any(cn.endswith('::' + x) or ('::' + x + '::') in cn or cn.endswith(x) for x in allowed):
+                    odd.append((bb, cn.rsplit('::', 1)[-1]))
+        # the same for every loop nested in it (the whole-group loop, the gather / copy loops of the remainder): no iteration is cut short
+        inner_bad = []
+        for h2, body2 in loops_.items():
+            if h2 == h_: continue
+            back2 = [x for x in body2 if h2 in g.succ[x]]
+            exits2 = [x for x in body2 if any(y not in body2 for y in g.succ[x])]
+            if len(back2) != 1 or len(exits2) != 1 or g.blocks[exits2[0]]['term']['t'] != 'switch':
+                inner_bad.append((h2, len(back2), sorted(exits2)))
+        if inner_bad:
+            ck.violation('L', 'L : yuv420_to_rgba : inner loop shape', where_of(b, inner_bad[0][0]), 'a loop inside the row loop has %d back edges and exits at blocks %s (a `continue` / `break` skips part of a row)' % (inner_bad[0][1], inner_bad[0][2]))
+        elif len(back) == 1 and exits == [h_] or (len(back) == 1 and len(exits) == 1 and g.blocks[exits[0]]['term']['t'] == 'switch' and not rets_in) :
+            if odd: ck.violation('L', 'L : yuv420_to_rgba : output writers', where_of(b, odd[0][0]), 'the output buffer is also handed to %s' % sorted({m for _, m in odd}))
+            else: ck.ok('L', 'row loop: one back edge, left only when the row range is exhausted; the output buffer goes only to slicing calls', where_of(b, h_))
+        else:
+            ck.violation('L', 'L : yuv420_to_rgba : row loop shape', where_of(b, h_), 'the row loop has %d back edges and exits at blocks %s (a `continue`, `break` or early return skips part of the conversion of a row)' % (len(back), exits))
     main = [x for x in terms if find(x[1], lambda z: z[0] == 'f' and z[1].startswith('cast_slice'))]
     rem = [x for x in terms if x not in main]
     ck.rule('M', 'whole groups: kernel(k) <- (luma row r bytes 4k.., chroma_b row r/2 bytes 2k.., chroma_r row r/2 bytes 2k..) -> output row r bytes 16k.., same k in all four streams; '
